@@ -24,7 +24,9 @@ QUICK_SIZES = ((2, 2), (2, 3), (3, 2), (3, 3), (4, 2), (2, 4))
 def bounds(tier):
     return ('quick: cover families deep (N=6 C / N=5 Py @2/2 slim alphabet; N=5 full alphabet @ %s; '
             'subclass route @2/2, 3/2), all 22 families N=4 full alphabet; thorough: all 22 deep, '
-            'N=7 C / N=6 Py, sizes {2,3,4}^2' % (QUICK_SIZES,))
+            'N=7 C / N=6 Py, sizes {2,3,4}^2; wide nodes (vt.space.wide_configs: thinning spaces @2/8, 8/2, 6/6 and '
+            'BFS N=7 @2/8, N=9 @8/2) and big states at the DEFAULT node sizes (II 200 keys, OO 100 keys: every '
+            'single operation from a scripted build)' % (QUICK_SIZES,))
 
 
 def required_guards(tier):
@@ -74,7 +76,26 @@ def jobs(tier):
                                                     n=10 if tier == 'quick' else 12,
                                                     variant='centred', alphabet='slim',
                                                     subclass=False, thin=order)})
+    # wide nodes (vt.space.wide_configs): 8..9 children under one node, 8 keys in one leaf
+    from .. import space as S
+    for fam, kind, impl, sizes, n, var, thin, w in S.wide_configs(tier):
+        js.append({'fn': 'job', 'weight': 2 * w, 'group': '%s/wide' % impl,
+                   'args': dict(fam=fam, kind=kind, impl=impl, sizes=sizes, n=n, variant=var,
+                                alphabet='slim' if thin or n > 7 else 'full', subclass=False,
+                                thin=thin)})
+    # big states at the default node sizes (given explicitly so that the capacity walk knows them)
+    for fam, n, sizes in BIG[tier]:
+        for impl in F.IMPLS:
+            for kind, order in (('BTree', 'asc'), ('TreeSet', 'desc'), ('BTree', 'mid')):
+                js.append({'fn': 'job', 'weight': 6 if impl == 'c' else 30, 'group': '%s/big' % impl,
+                           'args': dict(fam=fam, kind=kind, impl=impl, sizes=sizes, n=n,
+                                        variant='centred', alphabet='slim', subclass=False, big=order)})
     return js
+
+
+BIG = {'quick': (('II', 200, (120, 500)), ('OO', 100, (30, 250))),
+       'thorough': (('II', 400, (120, 500)), ('OO', 200, (30, 250)), ('LQ', 200, (120, 500)),
+                    ('fs', 800, (500, 500)), ('IF', 200, (120, 500)))}
 
 
 def structural_events(prev, cur):
@@ -158,9 +179,9 @@ def checker_monitor(sizes, use_check):
     return tmon, smon
 
 
-def job(fam, kind, impl, sizes, n, variant, alphabet, subclass, thin=None):
+def job(fam, kind, impl, sizes, n, variant, alphabet, subclass, thin=None, big=None):
     ex = S.explorer(fam, kind, impl, sizes, n, variant, 'C03', alphabet=alphabet,
-                    subclass=subclass, thin=thin)
+                    subclass=subclass, thin=thin, big=big)
     ex.base_case['alphabet'] = alphabet
     ex.base_case['subclass'] = subclass
     tmon, smon = checker_monitor(sizes, use_check=not subclass)
